@@ -1,4 +1,8 @@
-(* C11 -- multi-path extraction agrees with single-path get. Statements only. *)
+(* C11 -- multi-path extraction agrees with single-path get. Statements only.
+   `rec` (Model/Many.v) is the search as the code had it before the repair of F37: without the list of walked nodes.
+   The statements of this file therefore assume documents without repeated member names; on those `rec` is the
+   search of the current code (C11_Seen.seen_is_invisible_without_repeats), and C11_Seen.v states soundness,
+   completeness and the end-to-end agreement for the current code on every document. *)
 From Coq Require Import List Arith.
 From SonicV Require Import Model.Many.
 From SonicV Require Spec.Ref Model.MergeSpec Model.ManyComplete Model.ManyBuild.
